@@ -513,6 +513,13 @@ func c11Run(c *Ctx) {
 				}
 			}
 		}
+		if t.W == WScalar && (isIntKind(t.K) || t.K == KFloat32 || t.K == KFloat64 || t.K == KDuration) {
+			// a refused text leaves nothing behind: in particular not the clamped limit of the type
+			if got, zero := Canon(o.Val), Canon(newZero(t)); got != zero {
+				c.Violate(fmt.Sprintf("rejected-text-stored:%s:%s", kindGroup(t), chan_), "%s (base %d): the text %q was refused (%s), yet the field now holds %s", t, cs.Base, cs.Text, msg, got)
+				return
+			}
+		}
 		c.Held(cell+"/rejected", shape)
 		return
 	}
